@@ -106,22 +106,44 @@ theorem byte_diff (x y : UInt8) (hxy : x ≠ y) :
 
 namespace BitString
 
+/-- a key short enough for its bits to stay below the length positions (`8 * len(k) ≤ lenPos = 2^30`) -/
+def Small (k : Key) : Prop := 8 * k.length ≤ lenPos
+
+instance (k : Key) : Decidable (Small k) := by unfold Small; infer_instance
+
+/-- the bit at 0-based index `p` of the sequence `Bit` reads: below `lenPos` the zero-padded bits of the string,
+from `lenPos` on one bit per byte — index `lenPos + i - 1` (position `lenPos + i`) is set iff the string has at
+least `i` bytes -/
+def xbit (b : Key) (p : Nat) : Bool :=
+  if p ≥ lenPos then decide (p + 1 - lenPos ≤ b.length) else kbit b p
+
+theorem xbit_lt (b : Key) {p : Nat} (h : p < lenPos) : xbit b p = kbit b p := by
+  simp [xbit, show ¬ p ≥ lenPos by omega]
+
+theorem xbit_ge (b : Key) {p : Nat} (h : lenPos ≤ p) : xbit b p = decide (p + 1 - lenPos ≤ b.length) := by
+  simp [xbit, h]
+
 /-- `Bit(0)` panics (negative shift amount) -/
 theorem bit_zero (b : BitString) : bit b 0 = .panic := by simp [bit, len]
 
-/-- `Bit(pos)` for `pos ≥ 1` is bit `pos - 1` of the zero-padded sequence -/
-theorem bit_succ (b : BitString) (i : Nat) : bit b (i + 1) = .ok (kbit b i) := by
+/-- `Bit(pos)` for `pos ≥ 1` is bit `pos - 1` of that sequence -/
+theorem bit_succ (b : BitString) (i : Nat) : bit b (i + 1) = .ok (xbit b i) := by
   unfold bit len
-  by_cases h : i + 1 > 8 * b.length
-  · simp only [h, if_true]
-    rw [kbit_of_len_le b (by omega)]
-  · simp only [h, if_false, Nat.add_one_ne_zero, Nat.add_sub_cancel]
-    have hlt : i / 8 < b.length := by omega
-    rw [List.getElem?_eq_getElem hlt]
-    simp only [kbit, List.getElem?_eq_getElem hlt]
-    rw [mask_testBit _ (Nat.mod_lt _ (by omega))]
+  by_cases hl : i + 1 > lenPos
+  · simp only [hl, if_true]
+    rw [xbit_ge b (by omega)]
+  · simp only [hl, if_false]
+    rw [xbit_lt b (by omega)]
+    by_cases h : i + 1 > 8 * b.length
+    · simp only [h, if_true]
+      rw [kbit_of_len_le b (by omega)]
+    · simp only [h, if_false, Nat.add_one_ne_zero, Nat.add_sub_cancel]
+      have hlt : i / 8 < b.length := by omega
+      rw [List.getElem?_eq_getElem hlt]
+      simp only [kbit, List.getElem?_eq_getElem hlt]
+      rw [mask_testBit _ (Nat.mod_lt _ (by omega))]
 
-theorem bit_ok_of_pos (b : BitString) {pos : Nat} (h : 0 < pos) : bit b pos = .ok (kbit b (pos - 1)) := by
+theorem bit_ok_of_pos (b : BitString) {pos : Nat} (h : 0 < pos) : bit b pos = .ok (xbit b (pos - 1)) := by
   obtain ⟨i, rfl⟩ : ∃ i, pos = i + 1 := ⟨pos - 1, by omega⟩
   simpa using bit_succ b i
 
@@ -256,22 +278,101 @@ theorem diffPosFrom_spec (xs ys : List UInt8) (i : Nat) :
             rw [kbit_cons_lt _ _ (by omega), kbit_cons_lt _ _ (by omega)]
             exact h4 (7 - j) (by omega)
 
-/-- `DiffPos = 0` exactly when the zero-padded bit sequences coincide -/
-theorem diffPos_eq_zero_iff (b c : BitString) : diffPos b c = 0 ↔ ∀ j, kbit b j = kbit c j := by
+/-- the scanning loop returns 0 exactly when the zero-padded bit sequences coincide -/
+theorem diffPosFrom_eq_zero_iff (b c : BitString) : diffPosFrom b c 0 = 0 ↔ ∀ j, kbit b j = kbit c j := by
   constructor
   · exact (diffPosFrom_spec b c 0).1
   · intro h
-    cases hp : diffPos b c with
+    cases hp : diffPosFrom b c 0 with
     | zero => rfl
     | succ p =>
       obtain ⟨_, h2, _⟩ := (diffPosFrom_spec b c 0).2 p hp
       exact absurd (h _) h2
 
-/-- otherwise `DiffPos` is the (1-based) position of the first differing bit -/
-theorem diffPos_succ (b c : BitString) (p : Nat) (h : diffPos b c = p + 1) :
+/-- otherwise it returns the (1-based) position of the first differing bit -/
+theorem diffPosFrom_succ (b c : BitString) (p : Nat) (h : diffPosFrom b c 0 = p + 1) :
     kbit b p ≠ kbit c p ∧ ∀ j, j < p → kbit b j = kbit c j := by
   obtain ⟨_, h2, h3⟩ := (diffPosFrom_spec b c 0).2 p h
   simpa using And.intro h2 h3
+
+/-- strings of the same length with the same zero-padded bits are equal -/
+theorem eq_of_kbit_eq_of_length_eq (b c : Key) (h : ∀ j, kbit b j = kbit c j) (hl : b.length = c.length) : b = c := by
+  induction b generalizing c with
+  | nil => cases c with
+    | nil => rfl
+    | cons => simp at hl
+  | cons x xs ih =>
+    cases c with
+    | nil => simp at hl
+    | cons y ys =>
+      obtain ⟨hxy, hrest⟩ := (kbit_cons_eq_iff x y xs ys).mp h
+      rw [hxy, ih ys hrest (by simpa using hl)]
+
+/-- a differing bit lies within the longer string -/
+theorem kbit_ne_lt {b c : Key} {p : Nat} (h : kbit b p ≠ kbit c p) : p < 8 * max b.length c.length := by
+  apply Classical.byContradiction
+  intro hge
+  apply h
+  rw [kbit_of_len_le b (by omega), kbit_of_len_le c (by omega)]
+
+/-- `DiffPos = 0` exactly for equal strings -/
+theorem diffPos_eq_zero_iff (b c : BitString) : diffPos b c = 0 ↔ b = c := by
+  unfold diffPos
+  constructor
+  · intro h
+    split at h
+    · omega
+    · rename_i hn
+      have h0 : diffPosFrom b c 0 = 0 := h
+      have hlen : b.length = c.length := by
+        apply Classical.byContradiction
+        intro hne; exact hn ⟨h0, hne⟩
+      exact eq_of_kbit_eq_of_length_eq b c ((diffPosFrom_eq_zero_iff b c).mp h0) hlen
+  · rintro rfl
+    have : diffPosFrom b b 0 = 0 := (diffPosFrom_eq_zero_iff b b).mpr (fun _ => rfl)
+    simp [this]
+
+/-- otherwise `DiffPos` is the (1-based) position of the first bit of the sequence `Bit` reads (`xbit`) at which
+the two strings differ — for strings whose bits stay below the length positions -/
+theorem diffPos_succ (b c : BitString) (hb : Small b) (hc : Small c) (p : Nat) (h : diffPos b c = p + 1) :
+    xbit b p ≠ xbit c p ∧ ∀ j, j < p → xbit b j = xbit c j := by
+  unfold Small at hb hc
+  unfold diffPos at h
+  split at h
+  · -- equal bits, different lengths
+    rename_i hcase
+    obtain ⟨h0, hne⟩ := hcase
+    have hall := (diffPosFrom_eq_zero_iff b c).mp h0
+    have hp : p = lenPos + min b.length c.length := by omega
+    subst hp
+    constructor
+    · rw [xbit_ge b (by omega), xbit_ge c (by omega)]
+      have e : lenPos + min b.length c.length + 1 - lenPos = min b.length c.length + 1 := by omega
+      rw [e]
+      by_cases hlt : b.length < c.length
+      · have h1 : ¬ (min b.length c.length + 1 ≤ b.length) := by omega
+        have h2 : min b.length c.length + 1 ≤ c.length := by omega
+        simp [h1, h2]
+      · have h1 : min b.length c.length + 1 ≤ b.length := by omega
+        have h2 : ¬ (min b.length c.length + 1 ≤ c.length) := by omega
+        simp [h1, h2]
+    · intro j hj
+      by_cases hjl : j < lenPos
+      · rw [xbit_lt b hjl, xbit_lt c hjl]; exact hall j
+      · rw [xbit_ge b (by omega), xbit_ge c (by omega)]
+        have h1 : j + 1 - lenPos ≤ b.length := by omega
+        have h2 : j + 1 - lenPos ≤ c.length := by omega
+        simp [h1, h2]
+  · obtain ⟨h2, h3⟩ := diffPosFrom_succ b c p h
+    have hplt := kbit_ne_lt h2
+    have hp : p < lenPos := by
+      rcases Nat.le_total b.length c.length with hle | hle
+      · rw [Nat.max_eq_right hle] at hplt; omega
+      · rw [Nat.max_eq_left hle] at hplt; omega
+    refine ⟨by rw [xbit_lt b hp, xbit_lt c hp]; exact h2, ?_⟩
+    intro j hj
+    rw [xbit_lt b (by omega), xbit_lt c (by omega)]
+    exact h3 j hj
 
 /-! ## `Equal`, `HasPrefix` -/
 
